@@ -52,6 +52,9 @@ def run(ctx):
     rep.rule("C14.R10", "a contribution's stored initial state (q0 / u0) is written from its OWNED index set (my_qDOF / my_uDOF), the set the layout was built from", 2)
     rep.rule("C14.R9", "the name that is inserted into the registry has been tested for uniqueness after its last change", 2)
     rep.rule("C14.R7", "repeatability: marker attributes are constructor data; the unique-name counter is monotone", 12)
+    rep.rule("C14.R14", "the dense form of a system matrix is the SUM of the contributions' blocks: every CooMatrix conversion goes through a duplicate-summing constructor (shared with C15.R7)", 4)
+    from .c15 import r7_conversions
+    r7_conversions(ctx, "C14.R14")
     rep.rule("C14.R13", "contributions that copy their subsystem's DOF tables run the subsystem's assembler_callback first (independent of the order of the contribution list)", 3)
     r13_subsystem_first(ctx)
     rep.rule("C14.R12", "System hands per-contribution callables (set_tau) that bind the contribution when they are created, not when they are called (K16 late binding)", 1)
@@ -857,4 +860,8 @@ MUTANTS += [
 MUTANTS += [
     dict(id="c14-r13-orig", canary=True, what="BaseActuator copies the subsystem's DOF tables without running its callback (original defect F51)", file="cardillo/actuators/_base.py",
          old="        self.subsystem.assembler_callback()\n        self.qDOF = self.subsystem.qDOF\n", new="        self.qDOF = self.subsystem.qDOF\n", expect="C14.R13"),
+]
+MUTANTS += [
+    dict(id="c14-r14-seed", canary=True, what="[seeded by sub-agent] CooMatrix.toarray fills a dense array by fancy-index assignment (overlapping contributions overwrite each other)", file="cardillo/utility/coo_matrix.py",
+         old="        return self.tocoo(copy).toarray()\n", new="        import numpy as _np\n        A = _np.zeros(self.shape, dtype=float)\n        A[_np.asarray(self.row, dtype=int), _np.asarray(self.col, dtype=int)] = self.data\n        return A\n", expect="C14.R14"),
 ]
